@@ -263,3 +263,9 @@ mod test_train_disp {
         .unwrap();
     }
 }
+
+// Verification hook (inert unless built with `--cfg nrel_altrios_verif` or under `cargo kani`).
+#[cfg(any(kani, nrel_altrios_verif))]
+mod verif_hook {
+    include!(concat!(env!("NREL_ALTRIOS_VERIF_DIR"), "/hooks/meet_pass__train_disp__mod.rs"));
+}
